@@ -125,6 +125,7 @@ type c09Handler struct {
 	mode    int
 	fixed   []byte
 	got     []RawMessage
+	kept    [][]byte   // the delivered slices themselves (the command handler keeps transaction data and span batches by reference)
 	replies []c09Reply // every non-nil reply returned, with the type of its request
 }
 
@@ -156,6 +157,7 @@ func (h *c09Handler) handle(m RawMessage) ([]byte, error) {
 	h.mu.Lock()
 	defer h.mu.Unlock()
 	h.got = append(h.got, RawMessage{Type: m.Type, Bytes: c09Copy(m.Bytes)})
+	h.kept = append(h.kept, m.Bytes)
 	sub := h.mode
 	switch {
 	case h.mode == 6:
@@ -407,8 +409,16 @@ func c09Run(t *testing.T, cs c09Case) c09Obs {
 
 	h.mu.Lock()
 	got := h.got
+	kept := h.kept
 	h.mu.Unlock()
 	obs.BodiesOK = true
+	// what was delivered stays what it was: a message is the receiver's once it has been handed over (the daemon queues
+	// transaction data by reference), reading the next one must not change it
+	for i := range got {
+		if i < len(kept) && !bytes.Equal(kept[i], got[i].Bytes) {
+			obs.BodiesOK = false
+		}
+	}
 	for i, m := range got {
 		om := c09Msg{T: uint32(m.Type), N: len(m.Bytes)}
 		if !cs.Big {
